@@ -316,6 +316,28 @@ fn reset_faults(pre: &Machine, scn: &Scn, known: &Known, at: (usize, u32), ctx: 
             return Err(v("load-limits", at, format!("load: program size {:?}, the program states {:?}{}", c.programsize(), want_limit, if scn.follow.keep_limit { " (NOSET: keep)" } else { "" })));
         }
     }
+    // load = master reset + RAM image + limits: inputs cleared, board outputs cleared, and the whole
+    // machine equals one constructed through public setters
+    for a in 0xFC..=0xFFu8 {
+        if c.bus().read(a) != 0 {
+            return Err(v("load-master-reset", at, format!("load: input register 0x{:02X} = 0x{:02X} survived the load", a, c.bus().read(a))));
+        }
+    }
+    {
+        let b = c.bus().board();
+        if *b.digital_output1() != 0 || *b.digital_output2() != 0 || b.daicr().bits() != 0 || *b.fan_rpm() != 0 || b.uio_dir().iter().any(|d| *d) {
+            return Err(v("load-master-reset", at, "load: board outputs / interrupt control / fan / UIO directions survived the load".into()));
+        }
+    }
+    if let Some(mut e) = construct(pre, true, known) {
+        let mem = e.raw_mut().bus_mut().memory_mut();
+        for i in 0..240 {
+            mem[i] = scn.follow.bytes.get(i).copied().unwrap_or(0);
+        }
+        e.raw_mut().set_stacksize(c.stacksize());
+        e.raw_mut().set_programsize(c.programsize());
+        hidden_state(&c, Some(e), at, "load", ctx)?;
+    }
     // cycle-for-cycle like a newly created machine
     let mut fresh = Machine::new_with_program(MachineConfig::default(), scn.follow.bytecode());
     if matches!(scn.follow.stack, 0 | 16 | 32 | 48 | 64) && !scn.follow.keep_limit {
